@@ -42,6 +42,23 @@ CLAIMED.update({
             "the real Window runs exhaustive short and random operation sequences on real files and is compared with the model and with an abstract-queue statement of the contract.", "5/C18",
             "Lean 4 invariant/refinement proof + exhaustive short op sequences on the real Window"),
 })
+CLAIMED.update({
+    "C03": ("c03_convert_relative, c03_validated_is_inside (a validated path resolves, lexically and without symlinks, under the configured directory — for every file name), "
+            "c03_refusal_has_no_effect, c03_effects_confined (every worker works on the validated path under the right directory) over the model of server.rs; "
+            "the real Server::listen is driven on loopback with names from a path-segment alphabet (exhaustive to length 3/4) and random names, RRQ and WRQ, 8 flag sets, "
+            "with decoy files around the served directories and a before/after listing of the whole sandbox.", "5/C03",
+            "Lean 4 proof over path/request model + in-process server differential correspondence + sandbox-diff oracle"),
+    "C05": ("c05_listen_step / c05_any_history (decoder never panics, receive buffer stays within 516..65468 bytes after every datagram sequence), c05_worker_params (every started worker gets survivable parameters), "
+            "c05_probe_independent; hostile batches from several sources followed by a probe request that must be served byte-exactly, in {multi,single} x {ro,rw}; a dying harness process is observed as `abort`. "
+            "Partial by nature: heap/thread exhaustion and a closed stdout are runtime behaviour outside the model.", "5/C05",
+            "Lean 4 invariant over listener model + hostile-batch differential runs against the in-process server"),
+    "C06": ("c06_read_only, c06_no_overwrite, c06_not_found, c06_refusals_from_listener, c06_overwrite_truncates as decision-logic theorems for every name/option list/file system/flag setting; "
+            "the full decision table is run against the in-process server with before/after listings.", "5/C06",
+            "Lean 4 decision-logic theorems + decision-table differential correspondence"),
+    "C09": ("c09_oack_iff, c09_oack_subset, c09_invalid_never_acked, c09_worker_params_sane, c09_worker_uses_last, c09_name_case (+ KELVIN SIGN) over parse_options/accept_request, whose guards are regenerated from the source; "
+            "option sets with boundary values, case variants and unknown options x {RRQ,WRQ} x {single,multi}: first reply, DATA lengths and burst length observed on loopback.", "5/C09",
+            "Lean 4 proof over option-negotiation model (guards extracted from source) + loopback differential correspondence"),
+})
 PENDING = {}
 
 def main():
